@@ -216,6 +216,19 @@ def balance_reset(ctx):
                 if got and not exp:
                     ctx.violate(q, 'update(network=%s, account_id=%s) resets the cached total of %s, which is outside the queried scope' % (net, acc, b), guard[0],
                                 'the balance of another account / network drops to 0 until it is refreshed')
+    # per-key balances: every key of the scope without an unspent output gets a 0 entry, whatever its stored balance says (the ORM objects
+    # are stale inside a session: balances are written with bulk_update_mappings)
+    zero = [n for n in walk_no_nested(fn) if isinstance(n, ast.For) and 'self.keys(' in norm(n.iter)]
+    zifs = [s_ for z in zero for s_ in z.body if isinstance(s_, ast.If) and "'balance': 0" in norm(s_)]
+    if not zifs:
+        ctx.unsure('%s: zero entries for keys without unspent outputs not found' % q)
+    else:
+        t = zifs[0].test
+        reads = sorted(set(norm(a) for a in ast.walk(t) if isinstance(a, ast.Attribute) and isinstance(a.value, ast.Name) and a.value.id == zero[0].target.id))
+        ctx.saw('a key gets a 0 entry when `%s` (reads %s of the key)' % (norm(t), reads))
+        stale = [r for r in reads if r.split('.')[-1] in ('balance', 'used', 'latest_txid')]
+        ctx.require(not stale, q, 'whether a key without unspent outputs is reset depends on its stored %s' % ', '.join(stale), zifs[0],
+                    'a key funded in this session still reads balance 0, is skipped, and keeps its old balance after its last output was spent elsewhere')
     src = unparse(fn)
     ctx.require("self._balance = sum([b['balance'] for b in balance_list" in src, q, 'wallet total is not the sum over the grouped query result', fn)
     ctx.require('bulk_update_mappings(DbKey, key_balance_list)' in src, q, 'per-key balances are not written from the same grouped result', fn)
@@ -255,6 +268,27 @@ def persist(ctx):
     for col, src in want_in.items():
         ctx.require(written['DbTransactionInput'].get(col) == src, wq, 'input column %s is written from `%s`, from_txid interprets it as %s' % (col, written['DbTransactionInput'].get(col), src), wf,
                     'a stored transaction reloads with different inputs / serialization')
+    # the witness stack is persisted for EVERY input type (p2sh-segwit inputs are rebuilt from it alone): all definitions of the value
+    # written to the witnesses column derive from ti.witnesses
+    from ..dfa import ReachingDefs
+    rd = ReachingDefs(wf)
+    icall = [c for c in ast.walk(wf) if isinstance(c, ast.Call) and unparse(c.func) == 'DbTransactionInput'][0]
+    wkw = [k.value for k in icall.keywords if k.arg == 'witnesses']
+    if not wkw:
+        ctx.violate(wq, 'the witness stack of an input is not stored', icall, 'reloaded segwit transactions come back unsigned')
+    else:
+        nid = rd.node_of_ast(icall)
+        if isinstance(wkw[0], ast.Name):
+            defs = rd.reaching(nid, wkw[0].id)
+            srcs = [norm(d.value) if d.value is not None else d.kind for d in defs]
+            ctx.saw('witnesses column <- %s' % srcs)
+            for d in defs:
+                lv = rd.leaves(d.value, d.node_id) if d.value is not None else set()
+                if not any(x[0] == 'attr' and x[1] == 'ti.witnesses' for x in lv):
+                    ctx.violate(wq, 'on some path the witnesses column is written from `%s`, not from the witness stack of the input' % (norm(d.value) if d.value is not None else d.kind), d.ast,
+                                'a stored p2sh-segwit transaction reloads without signature and public key: another raw transaction, verify() False')
+        else:
+            ctx.require('ti.witnesses' in norm(wkw[0]), wq, 'witnesses column is written from `%s`' % norm(wkw[0]), icall)
     want_out = {'value': 'to.value', 'script': 'to.lock_script', 'output_n': 'to.output_n', 'script_type': 'to.script_type', 'is_change': 'to.change', 'spent': 'spent'}
     for col, src in want_out.items():
         ctx.require(written['DbTransactionOutput'].get(col) == src, wq, 'output column %s is written from `%s`, from_txid interprets it as %s' % (col, written['DbTransactionOutput'].get(col), src), wf)
